@@ -234,7 +234,9 @@ Lemma load_grows : forall st spec0 range asset in_dyn root attr count,
 Proof.
   intros st spec0 range asset in_dyn root attr count. unfold load, onehop.
   set (s := load_target st spec0).
-  destruct (asset && negb (N.eqb attr 0) && negb (attr_allowed o attr)).
+  destruct (asset && N.eqb attr 9 && negb (mem s (w_wasm_ext W))).
+  { split; [apply grows_set_slot; intros m E; discriminate | apply set_slot_has]. }
+  destruct (asset && negb (N.eqb attr 0) && negb (N.eqb attr 9) && negb (attr_allowed o attr)).
   { split; [apply grows_set_slot; intros m E; discriminate | apply set_slot_has]. }
   assert (Hp : Grows st match class_of W s with
                  | SNode => (set_slot st s (BMod (node_module s))) <| st_has_node := true |>
